@@ -57,6 +57,10 @@ func libForward(p prog.Program) ([]tensor.Tensor, tensor.Tensor, error) {
 	if p.Disturb {
 		prog.Disturbance(p, false)
 	}
+	if p.UseResult {
+		// the result is used like any tensor before anything is read back
+		lib.Warm(vals[len(vals)-1])
+	}
 	// the operands, and the tensors they were derived from, are still what they were
 	for i, l := range p.Leaves {
 		s, v, err := lib.Read(vals[i])
